@@ -193,7 +193,67 @@ fn check_cli_combo(ctx: &mut Ctx, text: &str, c_true: bool, mode: usize) {
     }
 }
 
+/// diagrams 100 .. 1600 levels deep (a chain of literals ending in a two-variable choice):
+/// filter True must give a diagram implied by f, filter False one that implies f, Any f itself —
+/// judged on the assignment family of `closure::deep_assignments`; the result mentions only
+/// variables of f and is ordered
+fn deep_retain(ctx: &mut Ctx) {
+    use crate::closure::{deep_assignments, walk_usize};
+    let mut idx = 1u64 << 42;
+    for n in [100usize, 511, 512, 513, 600, 1000, 1600] {
+        for shape in 0..6usize {
+            for (fi, filter) in [TruthTableEntry::True, TruthTableEntry::False, TruthTableEntry::Any].into_iter().enumerate() {
+                idx += 1;
+                if !ctx.mine(idx) {
+                    continue;
+                }
+                let case = json!({"part": "deep", "n": n, "shape": shape, "filter": fi});
+                ctx.begin_case(|| case.clone());
+                ctx.count("evaluations", 1);
+                ctx.count("deep_retain_cases", 1);
+                let key = format!("{TAG} retain {:?} on a chain of {n} literals (shape {shape})", filter);
+                let env = rsbdd::bdd::BDDEnv::<usize>::new();
+                let r = guarded(|| -> Option<String> {
+                    let lit = |i: usize| match shape % 3 {
+                        0 => env.var(i),
+                        1 => env.not(env.var(i)),
+                        _ => if i % 2 == 0 { env.var(i) } else { env.not(env.var(i)) },
+                    };
+                    let conj = shape < 3;
+                    let tail = if conj { env.or(env.var(n), env.var(n + 1)) } else { env.and(env.var(n), env.var(n + 1)) };
+                    let f = (0..n).rev().fold(tail, |acc, i| if conj { env.and(lit(i), acc) } else { env.or(lit(i), acc) });
+                    let g = env.retain_choice_bottom_up(f.clone(), filter);
+                    let mut sup = vec![];
+                    robdd::labels(&g, &mut sup);
+                    if let Some(v) = sup.iter().find(|v| **v > n + 1) {
+                        return Some(format!("the result mentions variable {v}, which f does not depend on"));
+                    }
+                    if fi == 2 && !robdd::same_by(&f, &g, &|a, b| a == b) {
+                        return Some("filter Any did not return f itself".to_string());
+                    }
+                    for a in deep_assignments(n) {
+                        let (vf, vg) = (walk_usize(&f, a.as_ref()), walk_usize(&g, a.as_ref()));
+                        if fi == 0 && vf && !vg {
+                            return Some("filter True: an assignment satisfying f does not satisfy the result".to_string());
+                        }
+                        if fi == 1 && vg && !vf {
+                            return Some("filter False: an assignment satisfying the result does not satisfy f".to_string());
+                        }
+                    }
+                    None
+                });
+                match r {
+                    Err(p) => ctx.violation(key, format!("panicked: {p}"), case),
+                    Ok(Some(m)) => ctx.violation(key, m, case),
+                    Ok(None) => {}
+                }
+            }
+        }
+    }
+}
+
 fn run(ctx: &mut Ctx) {
+    deep_retain(ctx);
     for k in [3usize, 4] {
         match Space::<usize>::by_interning(&syms_for(k)) {
             Err(e) => ctx.violation(format!("{TAG} building operands"), e, json!({"part": "api", "k": k, "f": 0, "filter": 0})),
@@ -236,6 +296,16 @@ fn run(ctx: &mut Ctx) {
 }
 
 fn replay(ctx: &mut Ctx, c: &Value) {
+    if c["part"].as_str() == Some("deep") {
+        let mut c2 = Ctx::new("C20", ctx.tier, ctx.seed, 0, 1);
+        deep_retain(&mut c2);
+        for v in c2.violations {
+            if v.replay == *c {
+                ctx.violation(v.key, v.what, v.replay);
+            }
+        }
+        return;
+    }
     if c["part"].as_str() == Some("cli-combo") {
         check_cli_combo(ctx, c["text"].as_str().unwrap_or(""), c["c_true"].as_bool().unwrap_or(true), c["mode"].as_u64().unwrap_or(0) as usize);
         crate::cli::cleanup_scratch();
